@@ -20,21 +20,21 @@ theorem run_singleton (s : St) (c : Char) : run s [c] = ((step s c).1, (step s c
 
 /-! ### characters that need no escaping pass through the data state / the double-quoted value state -/
 
-def special (c : Char) : Bool := c == '&' || c == '<' || c == '>' || c == '"' || c == '\''
+def special (c : Char) : Bool := c == '&' || c == '<' || c == '>' || c == '"' || c == '\'' || c == '\r'
 
 theorem escChar_of_not_special (c : Char) (h : special c = false) : escChar c = [c] := by
   simp only [special, Bool.or_eq_false_iff, beq_eq_false_iff_ne, ne_eq] at h
-  obtain ⟨⟨⟨⟨h1, h2⟩, h3⟩, h4⟩, h5⟩ := h
-  simp [escChar, h1, h2, h3, h4, h5]
+  obtain ⟨⟨⟨⟨⟨h1, h2⟩, h3⟩, h4⟩, h5⟩, h6⟩ := h
+  simp [escChar, h1, h2, h3, h4, h5, h6]
 
 theorem run_data_escChar (c : Char) : run .data (escChar c) = (.data, [.ch c]) := by
   by_cases h : special c = true
   · simp only [special, Bool.or_eq_true, beq_iff_eq] at h
-    rcases h with (((rfl | rfl) | rfl) | rfl) | rfl <;> decide
+    rcases h with ((((rfl | rfl) | rfl) | rfl) | rfl) | rfl <;> decide
   · have hs : special c = false := by simpa using h
     rw [escChar_of_not_special c hs, run_singleton]
     simp only [special, Bool.or_eq_false_iff, beq_eq_false_iff_ne, ne_eq] at hs
-    simp [step, stepData, hs.1.1.1.1, hs.1.1.1.2]
+    simp [step, stepData, hs.1.1.1.1.1, hs.1.1.1.1.2]
 
 theorem run_data_escape (s : Str) : run .data (escape s) = (.data, s.map .ch) := by
   induction s with
@@ -45,12 +45,12 @@ theorem run_valDq_escChar (t : Tag) (an acc : Str) (c : Char) :
     run (.valDq t an acc) (escChar c) = (.valDq t an (acc ++ [c]), []) := by
   by_cases h : special c = true
   · simp only [special, Bool.or_eq_true, beq_iff_eq] at h
-    rcases h with (((rfl | rfl) | rfl) | rfl) | rfl <;>
+    rcases h with ((((rfl | rfl) | rfl) | rfl) | rfl) | rfl <;>
       simp [escChar, run_cons, run_nil, step, isRefPrefix, refTable, hasPrefix, List.lookup]
   · have hs : special c = false := by simpa using h
     rw [escChar_of_not_special c hs, run_singleton]
     simp only [special, Bool.or_eq_false_iff, beq_eq_false_iff_ne, ne_eq] at hs
-    simp [step, hs.1.1.1.1, hs.1.2]
+    simp [step, hs.1.1.1.1.1, hs.1.1.2]
 
 theorem run_valDq_escape (t : Tag) (an acc v : Str) :
     run (.valDq t an acc) (escape v) = (.valDq t an (acc ++ v), []) := by
